@@ -48,34 +48,6 @@ Proof.
   - left. destruct c as [[] [] [] [] [] [] [] []]; try reflexivity; discriminate Ec.
 Qed.
 
-(* add_zero after pass1 on a spelling "sign digits . digits" *)
-Lemma prep_frac sg ip f k :
-  sign_ok sg = true -> all_digits ip = true -> all_digits f = true ->
-  add_zero (pass1 (sg ++ ip ++ "." ++ f ++ zeros k)) = Ok (sg ++ ip ++ "." ++ canon_frac f).
-Proof.
-  intros Hsg Hip Hf.
-  set (r := f ++ zeros k).
-  assert (Hr : all_digits r = true) by (unfold r; now rewrite all_digits_app, Hf, all_digits_zeros).
-  assert (Hns : ns_head (ip ++ "." ++ r) = true) by (apply ns_head_digits_app; auto).
-  assert (Hsp : span_digits (ip ++ "." ++ r) = (ip, "." ++ r)) by (apply span_digits_app; auto).
-  unfold pass1. rewrite (strip_sign_app _ _ Hsg Hns), Hsp, (sign_of_app _ _ Hsg Hns).
-  change ("." ++ r) with (String "." r). cbv iota beta. rewrite Hr. cbn [andb].
-  assert (Hrs : rstrip0 r = rstrip0 f) by apply rstrip0_app_zeros.
-  pose proof (last_char_rstrip0 f Hf) as HL.
-  assert (Hcanon : add_zero (sg ++ ip ++ "." ++ rstrip0 f) = Ok (sg ++ ip ++ "." ++ canon_frac f)).
-  { unfold add_zero, canon_frac. destruct (rstrip0 f) as [|y t] eqn:E.
-    - change ("." ++ "") with (String "." ""). rewrite <- sapp_assoc, last_char_app_cons.
-      cbn [last_char]. rewrite Ascii.eqb_refl. rewrite !sapp_assoc. reflexivity.
-    - change ("." ++ String y t) with (String "." (String y t)).
-      rewrite <- sapp_assoc, last_char_app_cons.
-      change (last_char (String "." (String y t))) with (last_char (String y t)).
-      destruct (last_char (String y t)) as [c|] eqn:EL; [|discriminate HL].
-      destruct HL as [HL1 HL2]. rewrite (digit_not_dot _ HL1). rewrite sapp_assoc. reflexivity. }
-  destruct (String.eqb (rstrip0 r) r) eqn:Eq; cbn [negb].
-  - apply String.eqb_eq in Eq. rewrite <- Eq at 1. rewrite Hrs. exact Hcanon.
-  - rewrite Hrs. exact Hcanon.
-Qed.
-
 Lemma all_digits_no_dot u v : all_digits (u ++ String "." v) = false.
 Proof. induction u as [|c u IH]; simpl; [reflexivity | now rewrite IH, andb_false_r]. Qed.
 
@@ -120,25 +92,142 @@ Proof.
     apply (IH y). exact E.
 Qed.
 
-(* add_zero after pass1 is idempotent *)
-Lemma prep_idem s a : add_zero (pass1 s) = Ok a -> add_zero (pass1 a) = Ok a.
+(* ---- the exponent part ---- *)
+Lemma exp_ok_decomp e : exp_ok e = true ->
+  exists mk es ed, e = mk ++ es ++ ed /\ sign_ok es = true /\ all_digits ed = true /\
+                   nonempty ed = true /\ mk_ok es mk.
 Proof.
-  intros H. destruct (pass1_shape s) as [Hp | [sg [d1 [r [Hsg [Hd [Hr ->]]]]]]].
-  - rewrite Hp in H. destruct (add_zero_cases s a H) as [[-> [Hl Hne]] | [-> [p' ->]]].
-    + now rewrite Hp.
-    + (* s = p' ++ ".", a = s ++ "0" *)
-      destruct (pass1_shape ((p' ++ ".") ++ "0")) as [Hp2 | [sg [d1 [r [Hsg [Hd [Hr He]]]]]]].
-      * rewrite Hp2. apply add_zero_no_dot.
-        -- rewrite last_char_snoc. discriminate.
-        -- destruct (p' ++ "."); discriminate.
-      * rewrite sapp_assoc in He. change ("." ++ "0") with ".0" in He.
-        rewrite <- (sapp_assoc sg d1) in He. change ("." ++ r) with (String "." r) in He.
-        destruct (tail_dot p' (sg ++ d1) r Hr He) as [-> ->].
-        rewrite sapp_assoc. change ("." ++ "0") with ("." ++ "0" ++ zeros 0).
-        rewrite sapp_assoc. rewrite (prep_frac sg d1 "0" 0 Hsg Hd eq_refl). reflexivity.
-  - pose proof (prep_frac sg d1 r 0 Hsg Hd Hr) as P. cbn [zeros] in P. rewrite sapp_nil_r in P.
+  destruct e as [|c r]; [discriminate|]. unfold exp_ok.
+  destruct (is_marker c) eqn:Em.
+  - intros H. apply andb_true_iff in H. destruct H as [Hn Hd].
+    destruct (sign_decomp r) as [Hr Hs].
+    exists (String c ""), (sign_of r), (strip_sign r). repeat split; auto.
+    + simpl. now rewrite <- Hr.
+    + unfold mk_ok. unfold is_marker in Em.
+      repeat (apply orb_true_iff in Em; destruct Em as [Em|Em]); apply Ascii.eqb_eq in Em; subst c; auto 6.
+  - intros H. apply andb_true_iff in H. destruct H as [H Hd]. apply andb_true_iff in H. destruct H as [Hc Hn].
+    exists "", (String c ""), r. repeat split; auto.
+    + destruct (is_sign_cases c Hc) as [-> | ->]; reflexivity.
+    + unfold mk_ok. right. right. right. right. split; reflexivity.
+Qed.
+
+(* ---- pass1b ---- *)
+Lemma pass1b_shape s :
+  pass1b s = s \/
+  exists sg ip g mk es ed,
+    sign_ok sg = true /\ all_digits ip = true /\ sign_ok es = true /\ all_digits ed = true /\
+    nonempty ed = true /\ all_digits g = true /\ (nonempty ip || nonempty g) = true /\
+    mk_ok es mk /\ s = sg ++ ip ++ ("." ++ g) ++ mk ++ es ++ ed.
+Proof.
+  unfold pass1b. destruct (sign_decomp s) as [Hs Hsg].
+  destruct (span_digits_spec (strip_sign s)) as [Hx [Hd _]].
+  destruct (span_digits (strip_sign s)) as [d1 t]. simpl in Hx, Hd.
+  destruct t as [|c r]; [now left|].
+  destruct (Ascii.eqb c ".") eqn:Ec.
+  - apply Ascii.eqb_eq in Ec. subst c.
+    destruct (span_digits_spec r) as [Hr1 [Hr2 _]]. destruct (span_digits r) as [rd e]. simpl in Hr1, Hr2.
+    destruct (exp_ok e) eqn:Ee; cbn [andb]; [|now left].
+    destruct (String.eqb (rstrip0 rd) rd) eqn:Eq; cbn [negb]; [now left|].
+    right. destruct (exp_ok_decomp e Ee) as [mk [es [ed [He [Hes [Hed [Hne Hmk]]]]]]].
+    exists (sign_of s), d1, rd, mk, es, ed. repeat split; auto.
+    + destruct d1; [|reflexivity]. simpl. destruct rd; [|reflexivity]. simpl in Eq. discriminate.
+    + rewrite Hs at 1. rewrite Hx, Hr1, He. simpl. rewrite ?sapp_assoc. reflexivity.
+  - left. destruct c as [[] [] [] [] [] [] [] []]; try reflexivity; discriminate Ec.
+Qed.
+
+(* the three passes before pass2 *)
+Definition prep (s : string) : res string := add_zero (pass1b (pass1 s)).
+
+Lemma add_zero_digits_end x ed : all_digits ed = true -> nonempty ed = true ->
+  add_zero (x ++ ed) = Ok (x ++ ed).
+Proof.
+  intros Hed Hne. destruct (last_is_digit ed Hed Hne x) as [c [H1 H2]].
+  unfold add_zero. rewrite H1, (digit_not_dot _ H2). reflexivity.
+Qed.
+
+Lemma prep_exp sg ip es ed F g :
+  sign_ok sg = true -> all_digits ip = true -> sign_ok es = true -> all_digits ed = true ->
+  nonempty ed = true -> all_digits g = true ->
+  ((F = "" /\ g = "" /\ nonempty ip = true) \/ (F = "." ++ g /\ (nonempty ip || nonempty g) = true)) ->
+  forall mk, mk_ok es mk ->
+  prep (sg ++ ip ++ F ++ mk ++ es ++ ed) = Ok (sg ++ ip ++ F' ip F g ++ mk ++ es ++ ed).
+Proof.
+  intros Hsg Hip Hes Hed Hne Hg HF mk Hmk. unfold prep.
+  rewrite (proj1 (exp_old sg ip es ed F g Hsg Hip Hes Hed Hne Hg HF mk Hmk)).
+  rewrite (exp_pass1b sg ip es ed F g Hsg Hip Hes Hed Hne Hg HF mk Hmk).
+  rewrite <- !sapp_assoc. now apply add_zero_digits_end.
+Qed.
+
+(* a string ending in ".0" that ends with a non-empty run of digits *)
+Lemma tail_digits : forall u Y ed, all_digits ed = true -> nonempty ed = true ->
+  u ++ ".0" = Y ++ ed -> ed = "0" /\ Y = u ++ ".".
+Proof.
+  induction u as [|c u IH]; intros Y ed Hd Hn H.
+  - destruct Y as [|y Y']; simpl in H.
+    + subst ed. discriminate Hd.
+    + inversion H as [[Hy H']]. destruct Y' as [|z Y'']; simpl in H'.
+      * subst ed. auto.
+      * inversion H' as [[Hz H'']]. destruct Y''; simpl in H''; [subst ed; discriminate Hn | discriminate H''].
+  - destruct Y as [|y Y']; simpl in H.
+    + subst ed. simpl in Hd. apply andb_true_iff in Hd. destruct Hd as [_ Hd].
+      rewrite all_digits_no_dot in Hd. discriminate.
+    + inversion H as [[Hy H']]. destruct (IH Y' ed Hd Hn H') as [H1 H2]. subst. auto.
+Qed.
+
+Lemma mk_es_last es mk : sign_ok es = true -> mk_ok es mk ->
+  forall x, last_char (x ++ mk ++ es) <> Some "."%char.
+Proof.
+  intros Hes Hmk x.
+  destruct (sign_ok_cases _ Hes) as [-> | [-> | ->]];
+    destruct Hmk as [-> | [-> | [-> | [-> | [-> Hn]]]]]; try discriminate Hn;
+    rewrite ?sapp_nil_r; simpl;
+    match goal with |- last_char (x ++ String ?c ?r) <> _ => rewrite last_char_app_cons end;
+    simpl; discriminate.
+Qed.
+
+(* prep is idempotent *)
+Lemma prep_idem s a : prep s = Ok a -> prep a = Ok a.
+Proof.
+  unfold prep. intros H.
+  destruct (pass1_shape s) as [Hp | [sg [d1 [r [Hsg [Hd [Hr ->]]]]]]].
+  - rewrite Hp in H.
+    destruct (pass1b_shape s) as [Hb | [sg [ip [g [mk [es [ed [Hsg [Hip [Hes [Hed [Hne [Hg [Hn [Hmk ->]]]]]]]]]]]]]]].
+    + rewrite Hb in H. destruct (add_zero_cases s a H) as [[-> [Hl Hne]] | [-> [p' ->]]].
+      * now rewrite Hp, Hb.
+      * (* s = p' ++ ".", a = s ++ "0" *)
+        destruct (pass1_shape ((p' ++ ".") ++ "0")) as [Hp2 | [sg [d1 [r [Hsg [Hd [Hr He]]]]]]].
+        -- rewrite Hp2.
+           destruct (pass1b_shape ((p' ++ ".") ++ "0"))
+             as [Hb2 | [sg [ip [g [mk [es [ed [Hsg [Hip [Hes [Hed [Hne [Hg [Hn [Hmk He]]]]]]]]]]]]]]].
+           ++ rewrite Hb2. apply add_zero_no_dot.
+              ** rewrite last_char_snoc. discriminate.
+              ** destruct (p' ++ "."); discriminate.
+           ++ exfalso. rewrite sapp_assoc in He. change ("." ++ "0") with ".0" in He.
+              rewrite <- !sapp_assoc in He.
+              destruct (tail_digits p' _ ed Hed Hne He) as [_ HY].
+              assert (HL : last_char (p' ++ ".") = Some "."%char) by apply last_char_snoc.
+              rewrite <- HY in HL. rewrite sapp_assoc in HL.
+              exact (mk_es_last es mk Hes Hmk _ HL).
+        -- rewrite sapp_assoc in He. change ("." ++ "0") with ".0" in He.
+           rewrite <- (sapp_assoc sg d1) in He. change ("." ++ r) with (String "." r) in He.
+           destruct (tail_dot p' (sg ++ d1) r Hr He) as [-> ->].
+           rewrite sapp_assoc. change ("." ++ "0") with ("." ++ "0" ++ zeros 0).
+           rewrite sapp_assoc. rewrite (prep_frac sg d1 Hsg Hd "0" 0 eq_refl). reflexivity.
+    + (* an exponent spelling whose fraction loses zeros *)
+      pose proof (prep_exp sg ip es ed ("." ++ g) g Hsg Hip Hes Hed Hne Hg (or_intror (conj eq_refl Hn)) mk Hmk) as P.
+      unfold prep in P. rewrite Hp in P. rewrite P in H. inversion H; subst a.
+      change (F' ip ("." ++ g) g) with ("." ++ strip_frac ip g).
+      assert (Hn2 : (nonempty ip || nonempty (strip_frac ip g)) = true).
+      { unfold strip_frac. destruct (nonempty ip) eqn:Ei; [reflexivity|].
+        unfold canon_frac. destruct (rstrip0 g); reflexivity. }
+      pose proof (prep_exp sg ip es ed ("." ++ strip_frac ip g) (strip_frac ip g) Hsg Hip Hes Hed Hne
+                    (all_digits_strip_frac ip g Hg) (or_intror (conj eq_refl Hn2)) mk Hmk) as P2.
+      unfold prep in P2. refine (eq_trans P2 _).
+      change (F' ip ("." ++ strip_frac ip g) (strip_frac ip g)) with ("." ++ strip_frac ip (strip_frac ip g)).
+      now rewrite strip_frac_idem.
+  - pose proof (prep_frac sg d1 Hsg Hd r 0 Hr) as P. cbn [zeros] in P. rewrite sapp_nil_r in P.
     rewrite P in H. inversion H; subst a.
-    pose proof (prep_frac sg d1 (canon_frac r) 0 Hsg Hd (all_digits_canon r Hr)) as P2.
+    pose proof (prep_frac sg d1 Hsg Hd (canon_frac r) 0 (all_digits_canon r Hr)) as P2.
     cbn [zeros] in P2. rewrite sapp_nil_r, canon_frac_idem in P2. exact P2.
 Qed.
 
@@ -225,43 +314,158 @@ Proof.
   change ("." ++ r) with (String "." r). cbn [no_marker andb negb]. rewrite (no_marker_digits _ H3). reflexivity.
 Qed.
 
+(* ---- the stripping passes do not look at marker letters ---- *)
+Definition mapc (c : ascii) : ascii := if is_marker c then "e"%char else c.
+
+Lemma mapc_sign c : is_sign (mapc c) = is_sign c.
+Proof. destruct c as [[] [] [] [] [] [] [] []]; reflexivity. Qed.
+Lemma mapc_digit c : is_digit (mapc c) = is_digit c.
+Proof. destruct c as [[] [] [] [] [] [] [] []]; reflexivity. Qed.
+Lemma mapc_dot c : Ascii.eqb (mapc c) "." = Ascii.eqb c ".".
+Proof. destruct c as [[] [] [] [] [] [] [] []]; reflexivity. Qed.
+Lemma mapc_marker c : is_marker (mapc c) = is_marker c.
+Proof. destruct c as [[] [] [] [] [] [] [] []]; reflexivity. Qed.
+
+Lemma pass3_cons c r : pass3 (String c r) = String (mapc c) (pass3 r).
+Proof. reflexivity. Qed.
+
+Lemma sign_of_pass3 s : sign_of (pass3 s) = sign_of s.
+Proof.
+  destruct s as [|c r]; [reflexivity|]. rewrite pass3_cons. cbn [sign_of]. rewrite mapc_sign.
+  destruct (is_sign c) eqn:E; [|reflexivity]. unfold mapc. now rewrite (sign_not_marker _ E).
+Qed.
+
+Lemma strip_sign_pass3 s : strip_sign (pass3 s) = pass3 (strip_sign s).
+Proof.
+  destruct s as [|c r]; [reflexivity|]. rewrite pass3_cons. cbn [strip_sign]. rewrite mapc_sign.
+  destruct (is_sign c); reflexivity.
+Qed.
+
+Lemma span_digits_pass3 s :
+  span_digits (pass3 s) = (fst (span_digits s), pass3 (snd (span_digits s))).
+Proof.
+  induction s as [|c r IH]; [reflexivity|]. rewrite pass3_cons. cbn [span_digits]. rewrite mapc_digit.
+  destruct (is_digit c) eqn:E.
+  - rewrite IH. destruct (span_digits r) as [d t]. simpl. unfold mapc. now rewrite (digit_not_marker _ E).
+  - reflexivity.
+Qed.
+
+Lemma all_digits_pass3 s : all_digits (pass3 s) = all_digits s.
+Proof. induction s as [|c r IH]; [reflexivity|]. rewrite pass3_cons. simpl. now rewrite mapc_digit, IH. Qed.
+
+Lemma nonempty_pass3 s : nonempty (pass3 s) = nonempty s.
+Proof. destruct s; reflexivity. Qed.
+
+Lemma pass3_digits s : all_digits s = true -> pass3 s = s.
+Proof. intros H. apply pass3_plain. now apply no_marker_digits. Qed.
+
+Lemma exp_ok_pass3 e : exp_ok (pass3 e) = exp_ok e.
+Proof.
+  destruct e as [|c r]; [reflexivity|]. rewrite pass3_cons. unfold exp_ok.
+  rewrite mapc_marker, mapc_sign, strip_sign_pass3, !nonempty_pass3, !all_digits_pass3. reflexivity.
+Qed.
+
+Lemma pass3_sign_of s : pass3 (sign_of s) = sign_of s.
+Proof. apply pass3_plain. apply no_marker_sign. apply sign_decomp. Qed.
+
+Lemma pass3_dot_cons r : pass3 (String "." r) = String "." (pass3 r).
+Proof. reflexivity. Qed.
+
+Lemma pass1_pass3 s : pass1 (pass3 s) = pass3 (pass1 s).
+Proof.
+  unfold pass1. rewrite strip_sign_pass3, span_digits_pass3, sign_of_pass3.
+  destruct (span_digits_spec (strip_sign s)) as [_ [Hd _]].
+  destruct (sign_decomp s) as [Hs _].
+  destruct (span_digits (strip_sign s)) as [d1 t]. simpl fst. simpl snd. simpl in Hd.
+  destruct t as [|c r]; [reflexivity|]. rewrite pass3_cons.
+  destruct (Ascii.eqb c ".") eqn:Ec.
+  - apply Ascii.eqb_eq in Ec. subst c. change (mapc ".") with "."%char.
+    rewrite all_digits_pass3. destruct (all_digits r) eqn:Er; cbn [andb]; [|reflexivity].
+    rewrite (pass3_digits r Er).
+    destruct (String.eqb (rstrip0 r) r); cbn [negb]; [reflexivity|].
+    rewrite !pass3_app, pass3_sign_of, (pass3_digits d1 Hd), (pass3_digits _ (all_digits_rstrip0 r Er)).
+    reflexivity.
+  - destruct c as [[] [] [] [] [] [] [] []]; try discriminate Ec; reflexivity.
+Qed.
+
+Lemma pass1b_pass3 s : pass1b (pass3 s) = pass3 (pass1b s).
+Proof.
+  unfold pass1b. rewrite strip_sign_pass3, span_digits_pass3, sign_of_pass3.
+  destruct (span_digits_spec (strip_sign s)) as [_ [Hd _]].
+  destruct (span_digits (strip_sign s)) as [d1 t]. simpl fst. simpl snd. simpl in Hd.
+  destruct t as [|c r]; [reflexivity|]. rewrite pass3_cons.
+  destruct (Ascii.eqb c ".") eqn:Ec.
+  - apply Ascii.eqb_eq in Ec. subst c. change (mapc ".") with "."%char.
+    rewrite span_digits_pass3.
+    destruct (span_digits_spec r) as [_ [Hrd _]].
+    destruct (span_digits r) as [rd e]. simpl fst. simpl snd. simpl in Hrd.
+    rewrite exp_ok_pass3.
+    destruct (exp_ok e && negb (String.eqb (rstrip0 rd) rd)); [|reflexivity].
+    pose proof (all_digits_rstrip0 rd Hrd) as Hrs.
+    destruct (nonempty d1).
+    + rewrite !pass3_app, pass3_sign_of, (pass3_digits d1 Hd), (pass3_digits _ Hrs). reflexivity.
+    + destruct (rstrip0 rd) as [|y f] eqn:E.
+      * rewrite !pass3_app, pass3_sign_of. reflexivity.
+      * rewrite !pass3_app, pass3_sign_of, (pass3_digits _ Hrs). reflexivity.
+  - destruct c as [[] [] [] [] [] [] [] []]; try discriminate Ec; reflexivity.
+Qed.
+
+Lemma last_char_pass3_map s : last_char (pass3 s) = option_map mapc (last_char s).
+Proof.
+  induction s as [|c r IH]; [reflexivity|]. rewrite pass3_cons.
+  destruct r as [|y r']; [reflexivity|].
+  change (last_char (String c (String y r'))) with (last_char (String y r')).
+  rewrite <- IH. reflexivity.
+Qed.
+
+Lemma add_zero_pass3 s :
+  add_zero (pass3 s) = match add_zero s with Ok x => Ok (pass3 x) | Err e => Err e end.
+Proof.
+  unfold add_zero. rewrite last_char_pass3_map.
+  destruct (last_char s) as [c|]; [|reflexivity]. simpl. rewrite mapc_dot.
+  destruct (Ascii.eqb c "."); [|reflexivity]. now rewrite pass3_app.
+Qed.
+
+Lemma prep_pass3 a : prep a = Ok a -> prep (pass3 a) = Ok (pass3 a).
+Proof.
+  unfold prep. intros H. now rewrite pass1_pass3, pass1b_pass3, add_zero_pass3, H.
+Qed.
+
 (* ---- the theorem ---- *)
 Theorem normalize_float_idempotent s n :
   normalize_float s = Ok n -> normalize_float n = Ok n.
 Proof.
-  unfold normalize_float. destruct (add_zero (pass1 s)) as [a|] eqn:Ea; [|discriminate].
+  unfold normalize_float. fold (prep s). destruct (prep s) as [a|] eqn:Ea; [|discriminate].
   intros H. inversion H; subst n. clear H.
   pose proof (prep_idem s a Ea) as Hq.
   destruct (pass2_shape a) as [H2 | [sg [ip [F [g [es [ed [Hsg [Hip [Hes [Hed [Hne [Hg [HF [Hnes He]]]]]]]]]]]]]]].
   - (* pass2 leaves a alone: the result is pass3 a *)
-    rewrite H2.
-    destruct (pass1_shape (pass3 a)) as [P1 | [sg [d1 [r [Hsg [Hd [Hr He]]]]]]].
-    + rewrite P1.
-      assert (A : add_zero (pass3 a) = Ok (pass3 a)).
-      { destruct (add_zero_cases _ _ Ea) as [[Hap [Hl Hn]] | [Hap [p' Hp']]].
-        - rewrite Hap. apply add_zero_no_dot.
-          + intros Hx. apply last_char_pass3 in Hx. now apply Hl.
-          + now apply pass3_nonempty.
-        - rewrite Hap. apply add_zero_no_dot.
-          + intros Hx. apply last_char_pass3 in Hx. rewrite last_char_snoc in Hx. discriminate.
-          + apply pass3_nonempty. destruct (pass1 s); discriminate. }
-      rewrite A.
-      destruct (pass2_shape (pass3 a)) as [P2 | [sg [ip [F [g [es [ed [Hsg [Hip [Hes [Hed [Hne [Hg [HF [Hnes He]]]]]]]]]]]]]]].
-      * now rewrite P2, pass3_idem.
-      * (* pass3 a has no marker, so it is a itself *)
-        assert (NM : no_marker (pass3 a) = true).
-        { rewrite He. rewrite !no_marker_app, (no_marker_sign _ Hsg), (no_marker_digits _ Hip),
-            (no_marker_sign _ Hes), (no_marker_digits _ Hed).
-          destruct HF as [[-> _]|[-> _]]; [reflexivity|].
-          change ("." ++ g) with (String "." g). cbn [no_marker andb negb]. now rewrite (no_marker_digits _ Hg). }
-        pose proof (no_marker_pass3_fixed a NM) as Hfix. rewrite Hfix, H2, Hfix. reflexivity.
-    + pose proof (shape1_no_marker sg d1 r Hsg Hd Hr) as NM. rewrite <- He in NM.
-      pose proof (no_marker_pass3_fixed a NM) as Hfix. rewrite Hfix, Hq, H2, Hfix. reflexivity.
-  - (* pass2 inserts the marker: a spelling with a sign-only exponent *)
-    pose proof (norm_exp sg ip es ed F g Hsg Hip Hes Hed Hne Hg HF "" (or_intror (or_intror (or_intror (or_intror (conj eq_refl Hnes)))))) as N1.
-    unfold normalize_float in N1. rewrite <- He, Hq in N1. inversion N1 as [N1'].
+    rewrite H2. fold (prep (pass3 a)). rewrite (prep_pass3 a Hq).
+    destruct (pass2_shape (pass3 a)) as [P2 | [sg [ip [F [g [es [ed [Hsg [Hip [Hes [Hed [Hne [Hg [HF [Hnes He]]]]]]]]]]]]]]].
+    + now rewrite P2, pass3_idem.
+    + (* pass3 a has no marker, so it is a itself *)
+      assert (NM : no_marker (pass3 a) = true).
+      { rewrite He. rewrite !no_marker_app, (no_marker_sign _ Hsg), (no_marker_digits _ Hip),
+          (no_marker_sign _ Hes), (no_marker_digits _ Hed).
+        destruct HF as [[-> _]|[-> _]]; [reflexivity|].
+        change ("." ++ g) with (String "." g). cbn [no_marker andb negb]. now rewrite (no_marker_digits _ Hg). }
+      pose proof (no_marker_pass3_fixed a NM) as Hfix. rewrite Hfix, H2, Hfix. reflexivity.
+  - (* pass2 inserts the marker: a spelling with a sign-only exponent, already stripped *)
+    assert (Hmk : mk_ok es "") by (right; right; right; right; split; [reflexivity | exact Hnes]).
+    pose proof (norm_exp sg ip es ed F g Hsg Hip Hes Hed Hne Hg HF "" Hmk) as N1.
+    unfold normalize_float in N1. fold (prep (sg ++ ip ++ F ++ "" ++ es ++ ed)) in N1.
+    rewrite <- He, Hq in N1. inversion N1 as [N1'].
     rewrite N1'.
-    exact (norm_exp sg ip es ed F g Hsg Hip Hes Hed Hne Hg HF "e" (or_introl eq_refl)).
+    assert (HF2 : (F' ip F g = "" /\ strip_frac ip g = "" /\ nonempty ip = true) \/
+                  (F' ip F g = "." ++ strip_frac ip g /\ (nonempty ip || nonempty (strip_frac ip g)) = true)).
+    { destruct HF as [[-> [-> Hi]]|[-> Hn]].
+      - left. unfold F', strip_frac. rewrite Hi. auto.
+      - right. split; [reflexivity|]. unfold strip_frac. destruct (nonempty ip) eqn:Ei; [reflexivity|].
+        unfold canon_frac. destruct (rstrip0 g); reflexivity. }
+    pose proof (norm_exp sg ip es ed (F' ip F g) (strip_frac ip g) Hsg Hip Hes Hed Hne
+                  (all_digits_strip_frac ip g Hg) HF2 "e" (or_introl eq_refl)) as N2.
+    refine (eq_trans N2 _). f_equal. f_equal. f_equal.
+    rewrite F'_idem; [reflexivity|]. destruct HF as [[-> [-> _]]|[-> _]]; auto.
 Qed.
 
 (* consequence: whatever the density token, the (material, density) pair a
